@@ -483,7 +483,8 @@ class ExprRun:
             report(prop, "model:" + oracle, detail, pid, sc, lines, exp)
         # allocator usage (C12)
         aplus = sorted(int(l.split(" ")[1]) for l in lines if l.startswith("A+ "))
-        if sorted(sim.alloc_expected) != aplus and not faulty:
+        # (std::allocator, id 0, is what a type-erased wrapper hands to its children; its allocations are not logged)
+        if sorted(a for a in sim.alloc_expected if a != 0) != aplus and not faulty:
             report("C12", "allocator:wrong-allocator-used", "expected allocations from %s, observed %s"
                    % (sorted(sim.alloc_expected), aplus), pid, sc, lines, exp)
         # coverage accounting
@@ -579,7 +580,13 @@ class ExprRun:
                         for s2, sc2, _ in extra:
                             if s2 == sid:
                                 sc = sc2
-                if timed_out:
+                ss0 = core.san_summary(err)
+                if timed_out and ss0:
+                    # the sanitizer had already reported when the watchdog fired: the report is the finding
+                    key_o = ss0[0] + ":" + ">".join(ss0[1][:4])
+                    timed_out = False
+                    prop = "C02"
+                elif timed_out:
                     hf = core.hang_summary(err)
                     key_o = "hang" + (":" + ">".join(hf) if hf else "")
                     prop = "C01"
